@@ -43,6 +43,9 @@ func (fx *fexec) externModel(key string, x *ssa.Call, f *ssa.Function, args []Va
 		return Val{Ty: rt, T: vc.fromInt(r, rt)}, true
 	case "slices.Delete":
 		return fx.slicesDelete(x, args, st, pos), true
+	case repoModule + "/tm2/pkg/amino.Unmarshal", repoModule + "/tm2/pkg/amino.UnmarshalSized",
+		repoModule + "/tm2/pkg/amino.UnmarshalAny", repoModule + "/tm2/pkg/amino.UnmarshalJSON":
+		return fx.aminoUnmarshal(key, x, args, st, pos), true
 	}
 	if strings.HasPrefix(key, "math/big.") {
 		if r, ok := fx.bigModel(key, x, args, st, pos); ok {
